@@ -17,7 +17,10 @@ INFO = {
             "of integer data; a case is non-trivial when it reports >= 1 changepoint or pruning removed a start; "
             "distinct by hash of (n, m, pen, table)",
     "trusted_base": ["Coq 8.16.1 kernel + vm_compute", "harness/c02.py + table_scorers.py (generators, canonicalisation)",
-                     "Model/Pelt.v is hand-written: tied to pelt.py by model = implementation on every case"],
+                     "Model/Pelt.v is hand-written: tied to pelt.py by model = implementation on every case",
+                     "primitive floats (PrimFloat) under vm_compute for the binary64 streams; Flocq 4.1 for the binary64 theorems; the standard library's FloatAxioms / Uint63 axioms",
+                     "binary64 twins l2_cost_F (Check/FloatKernelCheck.v) and aggF (NumPy's row sum for fewer than 8 columns = sequential from the left): hand-written, tied bit for bit "
+                     "to L2Cost.evaluate (C01) and to PELT's scores from the data (from-data streams, 1..7 columns)"],
     "assumptions": ["|table values| < 2^40 so float64 sums/comparisons of the implementation are exact",
                     "split_cost = 0 (the only value the PELT class passes)"],
 }
